@@ -34,7 +34,7 @@ func (c13) Required() []string {
 func (c13) Cases(tier string, seed uint64) []core.Case {
 	n := 240
 	if tier == "thorough" {
-		n = 6000
+		n = 60000
 	}
 	r := core.NewRng(core.Mix(seed, 0xC13))
 	modes := []struct {
